@@ -24,10 +24,18 @@ p.add_argument("--steps", type=int)
 p.add_argument("--first", type=int, default=0)
 p.add_argument("--sleep", type=float)
 p.add_argument("--crash", type=int, default=0)   # signal number the job sends to itself after its first report
+p.add_argument("--gate", type=int, default=0)    # 1: after the first report, wait for the file <trial dir>/gate
+p.add_argument("--st_checkpoint_dir", type=str, default=None)
 a, _ = p.parse_known_args()
 t0 = time.time()
 for step in range(a.first + 1, a.steps + 1):
     time.sleep(a.sleep)
+    if a.gate and step == a.first + 2 and a.st_checkpoint_dir:
+        import os
+        gate = os.path.join(os.path.dirname(a.st_checkpoint_dir.rstrip("/")), "gate")
+        t_wait = time.time()
+        while not os.path.exists(gate) and time.time() - t_wait < 15:
+            time.sleep(0.005)
     print("[tune-metric]: " + json.dumps({"step": step, "m": 1.0 / step, "st_worker_timestamp": time.time(),
                                           "st_worker_time": time.time() - t0, "st_worker_iter": step - a.first - 1}))
     sys.stdout.flush()
@@ -215,6 +223,128 @@ def run_crash_case(spec):
         else:
             os.environ["SYNETUNE_FOLDER"] = old_folder
     return dict(outcome=outcome, statuses=statuses, failed=failed, started=started, alive=alive)
+
+
+def run_race_case(spec):
+    """The worker writes its FINAL reports and exits exactly between the two reads one poll of LocalBackend makes
+    (job status, job log): every job reports step 1, then waits for the file <trial dir>/gate, then reports steps
+    2..steps and exits with code 0. The harness wraps ``backend._read_status``: when it is called for a job that is alive
+    and whose first report is in the log, the gate is opened and the call waits for the process to exit before the
+    original method reads the status. Whatever the poll returns for the trial must be consistent: a trial reported
+    as completed comes with all the reports its job wrote. Returns dict(outcome, delivered, completed, opened)."""
+    from syne_tune import Tuner, StoppingCriterion
+    from syne_tune.backend import LocalBackend
+    from syne_tune.optimizer.scheduler import TrialScheduler, TrialSuggestion, SchedulerDecision
+    from syne_tune.tuner_callback import TunerCallback
+
+    steps = spec["steps"]
+    events = []
+
+    class StartOnly(TrialScheduler):
+        def __init__(self):
+            super().__init__(config_space={"steps": steps, "first": 0, "sleep": 0.01, "gate": 1})
+
+        def _suggest(self, trial_id):
+            return TrialSuggestion.start_suggestion(dict(self.config_space))
+
+        def on_trial_result(self, trial, result):
+            events.append(["s_result", trial.trial_id, int(result["step"])])
+            return SchedulerDecision.CONTINUE
+
+        def on_trial_complete(self, trial, result):
+            events.append(["s_complete", trial.trial_id, int(result["step"])])
+
+        def on_trial_error(self, trial):
+            events.append(["s_error", trial.trial_id])
+
+        def metric_names(self):
+            return ["m"]
+
+        def metric_mode(self):
+            return "min"
+
+    logging.disable(logging.CRITICAL)
+    old_folder = os.environ.get("SYNETUNE_FOLDER")
+    outcome, opened = ["normal"], []
+    try:
+        with tempfile.TemporaryDirectory(prefix="verif-local-") as tmp, contextlib.redirect_stdout(io.StringIO()):
+            os.environ["SYNETUNE_FOLDER"] = tmp
+            script = os.path.join(tmp, "train_steps.py")
+            with open(script, "w") as f:
+                f.write(SCRIPT)
+            backend = LocalBackend(entry_point=script)
+            read_status = backend._read_status
+
+            def hooked_read_status(trial_id):
+                proc = backend.trial_subprocess.get(trial_id)
+                gate = backend.trial_path(trial_id) / "gate"
+                if proc is not None and proc.poll() is None and not gate.exists() \
+                        and any("tune-metric" in line for line in backend.stdout(trial_id)):
+                    gate.touch()
+                    opened.append(trial_id)
+                    with contextlib.suppress(Exception):
+                        proc.wait(timeout=15)
+                return read_status(trial_id)
+
+            backend._read_status = hooked_read_status
+            tuner = Tuner(trial_backend=backend, scheduler=StartOnly(),
+                          stop_criterion=StoppingCriterion(max_num_trials_completed=spec["n_complete"] - 1, max_wallclock_time=25),
+                          n_workers=spec["n_workers"], sleep_time=spec["poll"], max_failures=0, tuner_name="verif-local-race",
+                          callbacks=[], suffix_tuner_name=False, save_tuner=False)
+            try:
+                tuner.run()
+            except Exception as e:
+                outcome = ["exception", type(e).__name__, str(e)[:120]]
+            for p in dict(backend.trial_subprocess).values():
+                if p.poll() is None:
+                    p.kill()
+                with contextlib.suppress(Exception):
+                    p.wait(timeout=2)
+    finally:
+        logging.disable(logging.NOTSET)
+        if old_folder is None:
+            os.environ.pop("SYNETUNE_FOLDER", None)
+        else:
+            os.environ["SYNETUNE_FOLDER"] = old_folder
+    return dict(outcome=outcome, events=events, opened=opened)
+
+
+def check_race(spec, out):
+    """Every job whose gate was opened wrote reports 1..steps and exited with code 0 before the status was read: the
+    scheduler is told about every report, in order, and then - once - that the trial completed, with the final report."""
+    steps = spec["steps"]
+    if out["outcome"][0] != "normal":
+        return [("run() on the LocalBackend ended with %s although every job reports %d steps and exits with code 0"
+                 % (out["outcome"], steps),
+                 dict(check="callbacks", event="run_raised", backend="local", exception=out["outcome"][1]))]
+    for t in out["opened"]:
+        mine = [e for e in out["events"] if e[1] == t]
+        ends = [i for i, e in enumerate(mine) if e[0] in ("s_complete", "s_error")]
+        if not ends:
+            continue   # the run ended before the end of this job was told (stop_all)
+        before = [e[2] for e in mine[:ends[0]] if e[0] == "s_result"]
+        after = [e for e in mine[ends[0] + 1:]]
+        if mine[ends[0]][0] != "s_complete" or before != list(range(1, steps + 1)) or mine[ends[0]][2] != steps or after:
+            return [("trial %d: its job wrote reports 1..%d and exited with code 0 between the two reads of one poll; the "
+                     "scheduler was told %s: reports %s before the end, end event %s, afterwards %s"
+                     % (t, steps, [e[0] for e in mine], before, mine[ends[0]], after),
+                     dict(check="callbacks", event="complete_before_all_results_delivered", backend="local"))]
+    return []
+
+
+def gen_race_spec(rng, k):
+    return dict(kind="local", scenario="race", steps=3 + k % 2, n_workers=1 + k % 2, n_complete=2, poll=rng.choice([0.1, 0.2]))
+
+
+def run_local_race(ctx, replay_cases):
+    specs = replay_cases if replay_cases is not None else [gen_race_spec(ctx.rng, k) for k in range(ctx.n(2, 8))]
+    for spec in specs:
+        out = run_race_case(spec)
+        ctx.count(dict(spec), nontrivial=bool(out["opened"]))
+        ctx.traces_validated += 1
+        ctx.h("local_backend_race", "%s,gates_opened=%d" % (out["outcome"][0], len(out["opened"])))
+        for what, sig in check_race(spec, out):
+            ctx.violation("property", "[LocalBackend] " + what, case=dict(spec), signature=sig)
 
 
 def check_crash(spec, out):
